@@ -98,6 +98,9 @@ def scan(w, s, name, tier, kinds_wanted, known, prop, survey, align=0):
         anomalies += r["anomalies"]
         for k in tot:
             tot[k] += int(r[k])
+        for mn in r.get("closed_mnemonics", b"").decode("latin-1").split("\n"):
+            if mn:
+                s.nt((name, mn.lower()))
     r = dict(tot, anomalies=anomalies)
     s.evaluations += int(r["evals"])
     s.count("decoded.%s" % name, int(r["evals"]))
@@ -169,9 +172,6 @@ def scan(w, s, name, tier, kinds_wanted, known, prop, survey, align=0):
             "asm_crash": "the assembler crashed on a rendering produced by its own disassembler",
             "asm_hang": "the assembler hung on a rendering produced by its own disassembler"}[kind],
             count=len(lst), **ex))
-    # non-trivial keys: accepted + closed mnemonics are only known in aggregate; use cpu-level counters
-    if int(r["closed"]):
-        s.nt((name, "closed", int(r["closed"]) > 100))
     return out
 
 
